@@ -326,8 +326,8 @@ class Walk:
         r = s.c('C_FindObjectsInit', s=se.h, tmpl=s.x.T(templ))
         if r['rv'] != 0: s.F('C19', f'C_FindObjectsInit|{st}|failed|{r["rvname"]}', 'a well-formed search could not be started', templ=repr(templ)); return
         got = []; batches = []
-        for _ in range(400):
-            mx = s.rnd.choice([1, 1, 2, 3, 5, 40, 0]); r = s.c('C_FindObjects', s=se.h, max=mx); batches.append((mx, r.get('n')))
+        for _ in range(3000):
+            mx = s.rnd.choice([1, 1, 2, 3, 5, 40, 0, 7, 100, 1000]); r = s.c('C_FindObjects', s=se.h, max=mx); batches.append((mx, r.get('n')))
             if r['rv'] != 0: s.F('C19', f'C_FindObjects|failed|{r["rvname"]}', 'C_FindObjects failed during an active search'); break
             if r['n'] > mx: s.F('C19', 'C_FindObjects|count-exceeds-max', 'more handles reported than asked for', mx=mx, n=r['n'])
             got += r['objs']
